@@ -116,6 +116,11 @@ pub mod ctxrules {
     const E_TOO_MANY_SIGNERS: u32 = 3010;
     const E_TOO_MANY_POLICIES: u32 = 3011;
 
+    /// the rule's id: a fixed number. It is opaque to the code under test (only ever part of a storage key; the step
+    /// harnesses in context_rules.rs quantify over all ids); with a symbolic id no storage hit is decided during symbolic
+    /// execution (the solver, not the simplifier, would learn that Policies(id) is the declared Policies(id)), every
+    /// vector length read back from storage becomes symbolic and the harness costs 30x more
+    const RULE_ID: u32 = 7;
     const S_META: usize = 0;
     const S_SIGNERS: usize = 1;
     const S_POLICIES: usize = 2;
@@ -190,7 +195,7 @@ pub mod ctxrules {
     /// ARBITRARY pairwise different delegated signers (any address ids) and ARBITRARY pairwise different policies;
     /// at least one of them (the registry's invariant)
     pub fn declare_rule(present: bool, sig: List, pol: List) -> Rule {
-        let id: u32 = kani::any();
+        let id: u32 = RULE_ID;
         let ty = arb_rule_type();
         kani::assume(sig.n + pol.n > 0);
         let meta = Meta { name: arb_name(), context_type: ty.clone(), valid_until: Option::<u32>::arb() };
@@ -225,23 +230,35 @@ pub mod ctxrules {
     }
 
     // -------------------------------------------------------------------------------------------- add_policy (cap8)
-    /// "only if": a rule that holds MAX_POLICIES policies never gets one more (the call never returns normally), whatever
-    /// else is stored (rule present or not, 0..2 signers, any fingerprints on record, any answer of the policy)
+    /// one stored rule with `ns` signers and MAX_POLICIES policies; any fingerprints on record; any new policy address, any
+    /// install parameter, any answer of the policy contract: `add_policy` never returns normally
     #[cfg(all(feature = "cap8", not(feature = "cap21")))]
-    #[kani::proof]
-    #[kani::unwind(98)]
-    pub fn add_policy_policies_at_limit() {
+    fn add_policy_to_full_rule(ns: u32) {
         setup_world();
         let e = Env::default();
-        let r = declare_rule(kani::any(), distinct_ids(0, 2), distinct_ids(MAX_POLICIES, MAX_POLICIES));
+        let r = declare_rule(true, distinct_ids(ns, ns), distinct_ids(MAX_POLICIES, MAX_POLICIES));
         declare_any_fingerprints();
         let policy = Address::from_id(kani::any());
         let param = Val::arb();
-        witness!(r.present && r.sig.n == 2 && !r.pol.has(policy.id) && world().seq == 7, "limit.new_policy_for_a_full_rule_is_tried");
+        witness!(!r.pol.has(policy.id), "limit.new_policy_for_a_full_rule_is_tried");
 
         sa::add_policy(&e, r.id, &policy, param);
 
         prop!(false, "C20.ctxrules.add_policy.policies_limit_exact.not_exceeded");
+    }
+    /// "only if": a rule that holds MAX_POLICIES policies never gets one more (0, 1 or 2 signers)
+    #[cfg(all(feature = "cap8", not(feature = "cap21")))]
+    #[kani::proof]
+    #[kani::unwind(98)]
+    pub fn add_policy_policies_at_limit() {
+        let shape: u8 = kani::any();
+        if shape == 0 {
+            add_policy_to_full_rule(0)
+        } else if shape == 1 {
+            add_policy_to_full_rule(1)
+        } else {
+            add_policy_to_full_rule(2)
+        }
     }
 
     fn add_policy_trap(code: u32) {
@@ -276,235 +293,80 @@ pub mod ctxrules {
         witness!(post.n == MAX_POLICIES, "limit.fifth_policy_accepted");
         end(3, 1);
     }
-}
 
-#[cfg(all(feature = "xdrdigest", feature = "traphook", feature = "cap8"))]
-pub mod scratch {
-    use soroban_sdk::model::{self, world, CAP};
-    use soroban_sdk::{Address, Arb, Bytes, BytesN, Env, Flat, Map, String, Val, Vec as SVec};
-    use stellar_accounts::smart_account::{self as sa, MAX_POLICIES};
-    use crate::util::*;
-    use super::ctxrules::*;
-    #[kani::proof]
-    #[kani::unwind(98)]
-    pub fn p_setup() {
+    // -------------------------------------------------------------------------------------------- add_signer (cap21)
+    /// the signer a call adds: delegated (any address id) or external (any verifier id, one arbitrary key byte)
+    fn arb_new_signer() -> Signer {
+        let a = Address::from_id(kani::any());
+        if kani::any() {
+            Signer::Delegated(a)
+        } else {
+            let x: u8 = kani::any();
+            Signer::External(a, Bytes::from_array(&Env, &[x]))
+        }
+    }
+    fn is_delegated_in(s: &Signer, l: &List) -> bool {
+        match s {
+            Signer::Delegated(a) => l.has(a.id),
+            _ => false,
+        }
+    }
+    /// one stored rule with MAX_SIGNERS signers and `np` policies; any fingerprints on record; any new signer:
+    /// `add_signer` never returns normally
+    #[cfg(feature = "cap21")]
+    fn add_signer_to_full_rule(np: u32) {
         setup_world();
-        let r = declare_rule(kani::any(), distinct_ids(0, 2), distinct_ids(MAX_POLICIES, MAX_POLICIES));
+        let e = Env::default();
+        let r = declare_rule(true, distinct_ids(MAX_SIGNERS, MAX_SIGNERS), distinct_ids(np, np));
         declare_any_fingerprints();
-        witness!(r.present, "x");
+        let s = arb_new_signer();
+        witness!(!is_delegated_in(&s, &r.sig), "limit.new_signer_for_a_full_rule_is_tried");
+
+        sa::add_signer(&e, r.id, &s);
+
+        prop!(false, "C20.ctxrules.add_signer.signers_limit_exact.not_exceeded");
     }
+    /// "only if": a rule that holds MAX_SIGNERS signers never gets one more (0 or 1 policies)
+    #[cfg(feature = "cap21")]
     #[kani::proof]
-    #[kani::unwind(98)]
-    pub fn p_get() {
-        setup_world();
-        let e = Env::default();
-        let r = declare_rule(kani::any(), distinct_ids(0, 2), distinct_ids(MAX_POLICIES, MAX_POLICIES));
-        declare_any_fingerprints();
-        let g = sa::get_context_rule(&e, r.id);
-        witness!(g.policies.len() == 5, "x");
-    }
-}
-#[cfg(all(feature = "xdrdigest", feature = "traphook", feature = "cap8"))]
-pub mod scratch2 {
-    use soroban_sdk::model::{self, world, CAP};
-    use soroban_sdk::xdr::ToXdr;
-    use soroban_sdk::{Address, Arb, Bytes, BytesN, Env, Flat, Map, String, Val, Vec as SVec};
-    use stellar_accounts::smart_account::{self as sa, MAX_POLICIES, Signer};
-    use crate::util::*;
-    use super::ctxrules::*;
-    #[kani::proof]
-    #[kani::unwind(98)]
-    pub fn p_sort_pol() {
-        let e = Env::default();
-        let pol = distinct_ids(5, 5).to_addr_vec();
-        let mut sorted = SVec::new(&e);
-        for p in pol.iter() {
-            match sorted.binary_search(&p) {
-                Ok(_) => kani::assume(false),
-                Err(pos) => sorted.insert(pos, p),
-            }
+    #[kani::unwind(130)]
+    pub fn add_signer_signers_at_limit() {
+        if kani::any() {
+            add_signer_to_full_rule(0)
+        } else {
+            add_signer_to_full_rule(1)
         }
-        witness!(sorted.len() == 5, "x");
     }
-    #[kani::proof]
-    #[kani::unwind(98)]
-    pub fn p_sort_sig() {
-        let e = Env::default();
-        let sig = delegated(&distinct_ids(5, 5));
-        let mut sorted = SVec::new(&e);
-        for p in sig.iter() {
-            match sorted.binary_search(&p) {
-                Ok(_) => kani::assume(false),
-                Err(pos) => sorted.insert(pos, p),
-            }
+
+    fn add_signer_trap(code: u32) {
+        if code == E_TOO_MANY_SIGNERS {
+            prop!(false, "C20.ctxrules.add_signer.signers_limit_exact.reachable");
+        } else {
+            prop!(false, "C20.ctxrules.add_signer.new_signer_accepted_below_the_limit");
         }
-        witness!(sorted.len() == 5, "x");
     }
+    /// "if": a new signer for a stored rule with MAX_SIGNERS - 1 signers (no equal rule on record) is accepted
+    #[cfg(feature = "cap21")]
     #[kani::proof]
-    #[kani::unwind(98)]
-    pub fn p_xdr() {
-        let e = Env::default();
-        let sig = delegated(&distinct_ids(5, 5));
-        let pol = distinct_ids(5, 5).to_addr_vec();
-        let mut d = sig.to_xdr(&e);
-        d.append(&pol.to_xdr(&e));
-        let h = e.crypto().sha256(&d).to_bytes();
-        witness!(h == BytesN::<32>::arb(), "x");
-    }
-}
-#[cfg(all(feature = "xdrdigest", feature = "traphook", feature = "cap8"))]
-pub mod scratch3 {
-    use soroban_sdk::model::{self, world, CAP};
-    use soroban_sdk::{Address, Arb, Bytes, BytesN, Env, Flat, Map, String, Val, Vec as SVec};
-    use stellar_accounts::smart_account::{self as sa, MAX_POLICIES};
-    use crate::util::*;
-    use super::ctxrules::*;
-    #[kani::proof]
-    #[kani::unwind(98)]
-    pub fn p_add_full() {
+    #[kani::unwind(130)]
+    pub fn add_signer_signers_below_limit() {
         setup_world();
         let e = Env::default();
-        let r = declare_rule(true, distinct_ids(1, 1), distinct_ids(MAX_POLICIES, MAX_POLICIES));
-        let policy = Address::from_id(kani::any());
-        witness!(r.present, "x");
-        sa::add_policy(&e, r.id, &policy, Val::arb());
-        prop!(false, "never");
-    }
-}
-#[cfg(all(feature = "xdrdigest", feature = "traphook", feature = "cap8"))]
-pub mod scratch4 {
-    use soroban_sdk::model::{self, world, CAP};
-    use soroban_sdk::{Address, Arb, Bytes, BytesN, Env, Flat, Map, String, Val, Vec as SVec};
-    use stellar_accounts::smart_account::{self as sa, MAX_POLICIES};
-    use stellar_accounts::policies::PolicyClient;
-    use crate::util::*;
-    use super::ctxrules::*;
-    fn stage(k: u32) {
-        setup_world();
-        let e = Env::default();
-        let r = declare_rule(true, distinct_ids(1, 1), distinct_ids(MAX_POLICIES, MAX_POLICIES));
-        let policy = Address::from_id(kani::any());
-        let rule = sa::get_context_rule(&e, r.id);
-        let mut policies = rule.policies.clone();
-        if policies.contains(&policy) { kani::assume(false); }
-        if k >= 1 {
-            PolicyClient::new(&e, &policy).install(&Val::arb(), &rule, &e.current_contract_address());
-        }
-        if k >= 2 {
-            policies.push_back(policy.clone());
-            if policies.len() > MAX_POLICIES { kani::assume(false); }
-            if k >= 3 { unreachable!(); }
-        }
-        witness!(policies.len() >= 5, "x");
-    }
-    #[kani::proof]
-    #[kani::unwind(98)]
-    pub fn p_a() { stage(0) }
-    #[kani::proof]
-    #[kani::unwind(98)]
-    pub fn p_b() { stage(1) }
-    #[kani::proof]
-    #[kani::unwind(98)]
-    pub fn p_c() { stage(3) }
-}
-#[cfg(all(feature = "xdrdigest", feature = "traphook", feature = "cap8"))]
-pub mod scratch5 {
-    use soroban_sdk::model::{self, world, CAP};
-    use soroban_sdk::{Address, Arb, Bytes, BytesN, Env, Flat, Map, String, Val, Vec as SVec};
-    use stellar_accounts::smart_account::{self as sa, MAX_POLICIES};
-    use crate::util::*;
-    use super::ctxrules::*;
-    fn heavy() {
-        let e = Env::default();
-        let sig = delegated(&distinct_ids(5, 5));
-        let mut sorted = SVec::new(&e);
-        for p in sig.iter() {
-            match sorted.binary_search(&p) {
-                Ok(_) => kani::assume(false),
-                Err(pos) => sorted.insert(pos, p),
-            }
-        }
-        witness!(sorted.len() == 5, "y");
-    }
-    #[kani::proof]
-    #[kani::unwind(98)]
-    pub fn p_len() {
-        setup_world();
-        let e = Env::default();
-        let r = declare_rule(true, distinct_ids(1, 1), distinct_ids(MAX_POLICIES, MAX_POLICIES));
-        let rule = sa::get_context_rule(&e, r.id);
-        if rule.policies.len() != 5 { heavy(); }
-        witness!(true, "x");
-    }
-    #[kani::proof]
-    #[kani::unwind(98)]
-    pub fn p_len2() {
-        setup_world();
-        let e = Env::default();
-        let r = declare_rule(true, distinct_ids(1, 1), distinct_ids(MAX_POLICIES, MAX_POLICIES));
-        let v = model::slot_val::<SVec<Address>>(2);
-        if v.len() != 5 { heavy(); }
-        witness!(true, "x");
-    }
-    #[kani::proof]
-    #[kani::unwind(98)]
-    pub fn p_len3() {
-        let v = distinct_ids(MAX_POLICIES, MAX_POLICIES).to_addr_vec();
-        if v.len() != 5 { heavy(); }
-        witness!(true, "x");
-    }
-}
-#[cfg(all(feature = "xdrdigest", feature = "traphook", feature = "cap8"))]
-pub mod scratch6 {
-    use soroban_sdk::model::{self, world, CAP};
-    use soroban_sdk::{Address, Arb, Bytes, BytesN, Env, Flat, Map, String, Val, Vec as SVec};
-    use stellar_accounts::smart_account::{self as sa, MAX_POLICIES, SmartAccountStorageKey as Key, Meta, Signer};
-    use crate::util::*;
-    use super::ctxrules::*;
-    fn heavy() {
-        let e = Env::default();
-        let sig = delegated(&distinct_ids(5, 5));
-        let mut sorted = SVec::new(&e);
-        for p in sig.iter() {
-            match sorted.binary_search(&p) {
-                Ok(_) => kani::assume(false),
-                Err(pos) => sorted.insert(pos, p),
-            }
-        }
-        witness!(sorted.len() == 5, "y");
-    }
-    #[kani::proof]
-    #[kani::unwind(98)]
-    pub fn p_g1() {
-        setup_world();
-        let e = Env::default();
-        let r = declare_rule(true, distinct_ids(1, 1), distinct_ids(MAX_POLICIES, MAX_POLICIES));
-        let v: Option<SVec<Address>> = e.storage().persistent().get(&Key::Policies(r.id));
-        if v.unwrap().len() != 5 { heavy(); }
-        witness!(true, "x");
-    }
-    #[kani::proof]
-    #[kani::unwind(98)]
-    pub fn p_g2() {
-        setup_world();
-        let e = Env::default();
-        let r = declare_rule(true, distinct_ids(1, 1), distinct_ids(MAX_POLICIES, MAX_POLICIES));
-        let k = Key::Policies(r.id);
-        let v: Option<SVec<Address>> = e.storage().persistent().get(&k);
-        e.storage().persistent().extend_ttl(&k, 5, 10);
-        if v.unwrap().len() != 5 { heavy(); }
-        witness!(true, "x");
-    }
-    #[kani::proof]
-    #[kani::unwind(98)]
-    pub fn p_g3() {
-        setup_world();
-        let e = Env::default();
-        let r = declare_rule(true, distinct_ids(1, 1), distinct_ids(MAX_POLICIES, MAX_POLICIES));
-        let m: Option<Meta> = e.storage().persistent().get(&Key::Meta(r.id));
-        let k = Key::Policies(r.id);
-        let v: Option<SVec<Address>> = e.storage().persistent().get(&k);
-        if m.is_none() || v.unwrap().len() != 5 { heavy(); }
-        witness!(true, "x");
+        ttl_representable();
+        let r = declare_rule(true, distinct_ids(MAX_SIGNERS - 1, MAX_SIGNERS - 1), distinct_ids(1, 1));
+        let s = arb_new_signer();
+        kani::assume(!is_delegated_in(&s, &r.sig));
+        witness!(r.sig.n + 1 == MAX_SIGNERS, "limit.call_reaching_exactly_the_documented_maximum_is_tried");
+
+        unsafe { model::ON_TRAP = Some(add_signer_trap) };
+        sa::add_signer(&e, r.id, &s);
+        unsafe { model::ON_TRAP = None };
+
+        let post = model::slot_val::<SVec<Signer>>(S_SIGNERS);
+        prop!(post.len() == r.sig.n + 1 && post.get(r.sig.n) == Some(s.clone()), "C20.ctxrules.add_signer.accepted_signer_is_stored");
+        prop!(post.len() <= MAX_SIGNERS, "C20.ctxrules.add_signer.signers_limit_exact.not_exceeded_in_storage");
+        witness!(post.len() == MAX_SIGNERS, "limit.fifteenth_signer_accepted");
+        witness!(match s { Signer::External(..) => true, _ => false }, "limit.external_signer_accepted");
+        end(3, 1);
     }
 }
